@@ -95,6 +95,50 @@ def pair_case(r, faults=True, rounds=None, ideal=False, drain=None, use_credit=T
     return ops, stats
 
 
+def ideallat_case(r):
+    """An ideal link with latency: nothing is lost, duplicated or reordered, but frames of either direction are held
+    back for a few rounds (seconds) before they arrive. Small frame windows and multi-fragment packets, so that a
+    sender sits on a full frame window with fragments of the current packet still unsent while the sync timer runs."""
+    c = pick_cfg(r)
+    c["FW"] = r.choice([4, 4, 16])
+    c["W"] = r.choice([64, 4096])
+    c["alloc"] = [100000, 100000]
+    c["bw"] = 2000000
+    c["ka"] = r.choice(["-", "5000"])
+    ops = ["seed %d" % r.randrange(U32)] + hcnew_lines(c)
+    now = 0
+    nsent = 0
+    hold = [0, 0]
+    for t in range(r.choice([6, 10, 16])):
+        now += r.choice([100, 500, 1000, 1000, 3000])
+        for e in (0, 1):
+            o = 1 - e
+            for _ in range(r.choice([0, 1, 2, 4]) if e == 0 else r.choice([0, 0, 1])):
+                if nsent >= 250:
+                    break
+                ops.append("send %d %d %d %d %d" % (e, r.choice([0, 1, 63]), r.choice([1, 1, 1, 2, 3]), r.choice([100, F + 1, 2 * F, 2 * F + 5, 3 * F]), nsent))
+                nsent += 1
+            ops.append("step %d %d" % (e, now))
+            ops.append("credit %d 1000000" % e)
+            ops.append("flush %d" % e)
+            if hold[e] > 0:
+                hold[e] -= 1
+            else:
+                ops.append("relay %d %d 0 0 0 1" % (e, o))
+                if r.random() < 0.35:
+                    hold[e] = r.choice([1, 2, 3])
+            ops.append("recv %d" % o)
+    for t in range(40):
+        now += 2500
+        for e in (0, 1):
+            ops.append("step %d %d" % (e, now))
+            ops.append("credit %d 100000" % e)
+            ops.append("flush %d" % e)
+            ops.append("relay %d %d 0 0 0 1" % (e, 1 - e))
+            ops.append("recv %d" % (1 - e))
+    return ops
+
+
 def chanmix_case(r):
     """Two channels, Unreliable / Persistent / Reliable packets interleaved, heavy frame loss, a receive() after
     every relay: the receive window stalls behind a lost Reliable packet of one channel while the other channel
